@@ -429,6 +429,29 @@ func genCliResp(p *prng, thorough bool, w *bufio.Writer) {
 		s.read(t1, t2)
 		s.finale("close")
 	}
+	// ... and cut twice or three times (HEADERS + several CONTINUATION frames), on a response with a body (the stream ends on
+	// DATA) and on one without (END_STREAM rides on the HEADERS frame and takes effect with the block's last frame)
+	for c1 := 1; c1 < 22; c1 += 3 {
+		for c2 := c1 + 1; c2 < 24; c2 += 4 {
+			for _, body := range []string{"", "abc"} {
+				s := newScn(w, p.fork(), 3, 100)
+				t1, sid1 := s.req(reqSpec{path: "/one"})
+				t2, sid2 := s.req(reqSpec{path: "/two"})
+				cuts := []int{c1, c2}
+				if (c1+c2)%3 == 0 {
+					cuts = append(cuts, c2+1) // a third CONTINUATION of one octet
+				}
+				if (c1+c2)%5 == 0 {
+					cuts = []int{c1, c1, c2} // an empty CONTINUATION in between (frHeaderBlock drops equal offsets: see below)
+				}
+				r := cli_respSpec{status: "200", hdrs: []cli_kv{{k: "x-a", v: "first"}, {k: "etag", v: "tagtagtag"}}, body: []byte(body), padH: -1, padD: -1, cuts: cuts}
+				s.frames(s.render(sid1, r)...)
+				s.frames(s.render(sid2, cli_respSpec{status: "200", hdrs: []cli_kv{{k: "x-a", v: "first"}, {k: "x-b", v: "second"}}, padH: -1, padD: -1})...)
+				s.read(t1, t2)
+				s.finale("close")
+			}
+		}
+	}
 	// dynamic table size updates in response blocks (RFC 7541 4.2). In front of the first field of a block they are in
 	// place, also when the block is cut anywhere across HEADERS and CONTINUATION, and a trailer block may hold one and
 	// nothing else. Behind a field of the block an update is a decoding error: that response must not be delivered,
@@ -1052,8 +1075,22 @@ func genCliSettings(p *prng, thorough bool, w *bufio.Writer) {
 		{{0, 4096}}, {{0}, {4096}}, {{100, 4096}}, {{4096, 0, 4096}}, {{0}, {8192}}, {{2048}, {0}, {4096}},
 		{{8192, 4096}}, {{0, 0}}, {{4096, 100}}, {{100}, {50}, {200}}, {{4096}}, {{0}}, {{65536, 0, 65536}},
 	}
+	// every order of three different values, in one frame and in three (the smallest may come first, last or in between)
+	vals := []uint32{0, 60, 1000, 4096}
+	for _, a := range vals {
+		for _, b := range vals {
+			for _, c := range vals {
+				if a != b && b != c && a != c {
+					dips = append(dips, [][]uint32{{a, b, c}}, [][]uint32{{a}, {b}, {c}})
+				}
+			}
+		}
+	}
 	for _, first := range []uint32{4096, 100, 0} {
-		for _, dip := range dips {
+		for di, dip := range dips {
+			if di >= 13 && (di+int(first))%3 != 0 && !thorough {
+				continue
+			}
 			var st []uint32
 			if first != 4096 {
 				st = append(st, 1, first)
